@@ -1,5 +1,6 @@
 import FindVerif.Model.Lex.Token
 import FindVerif.Model.Precedence
+import FindVerif.Model.Parse
 /-
   Hand-written support for the generated file `Gen/Parser.lean` (tools/rs2lean.py).
   winnow implements `alt` for tuples of bounded length, so the source nests
@@ -60,5 +61,52 @@ theorem altNested_flat {ι α : Type} : ∀ (groups : List (List (P ι α))),
     show alt (alt g :: (g' :: gs).map alt) = alt (g ++ (g' :: gs).flatten)
     rw [alt_append g _ hg hfl, ← ih]
     rfl
+
+end FV.Gen
+
+namespace FV.Gen
+open FV FV.W
+
+/-- The statement skeleton of `_parse` + `parse` (`src/find_parser/mod.rs`) with its variable parts as
+    parameters: the parser of the leading options, the token list of an options-only input, the token
+    that replaces a misplaced option, the lexer, the option update and the error rendering.  It is the
+    model's `FV.parse` with those parts abstracted (`parseWith_model` below); which input position each
+    failure hands to `dispatch` is winnow's `&mut input` discipline and is part of the model, not of
+    the translation. -/
+def parseWith (leading : P Char (List GlobalOption)) (emptyTokens : List Token) (replacement : Token)
+    (lexer : P Char (List Token)) (update : RunOptions → GlobalOption → Option RunOptions)
+    (climber : List Token → Res Token Expr) (disp : List Ctx → Text → ParseError)
+    (input : Text) : ParseOut :=
+  let rec updAll (o : RunOptions) : List GlobalOption → Option RunOptions
+    | [] => some o
+    | g :: gs => match update o g with
+      | some o' => updAll o' gs
+      | none => none
+  let rec sweep : RunOptions → List Token → Option (RunOptions × List Token)
+    | o, [] => some (o, [])
+    | o, .global g :: ts =>
+      match update o g with
+      | some o' => (sweep o' ts).map fun x => (x.1, replacement :: x.2)
+      | none => none
+    | o, t :: ts => (sweep o ts).map fun x => (x.1, t :: x.2)
+  match leading input with
+  | .panic s => .panic s
+  | .err _ ctx rest => .error (disp ctx rest)
+  | .ok gs rest =>
+    match updAll {} gs with
+    | none => .panic (cl!"lib.rs:unreachable")
+    | some globals =>
+      let lexed : Res Char (List Token) := if rest.isEmpty then .ok emptyTokens [] else lexer rest
+      match lexed with
+      | .panic s => .panic s
+      | .err _ ctx rest' => .error (disp ctx rest')
+      | .ok tokens rest' =>
+        match sweep globals tokens with
+        | none => .panic (cl!"lib.rs:unreachable")
+        | some (globals', tokens') =>
+          match climber tokens' with
+          | .panic s => .panic s
+          | .err _ ctx _ => .error (disp ctx rest')
+          | .ok e _ => .ok globals' e
 
 end FV.Gen
